@@ -1,5 +1,6 @@
 """C19 Time grid and interval data."""
 from ..comp import grid as G
+from ..comp import prices as PR
 
 ID = 'C19'
 P = 'EAO.Properties.C19'
@@ -30,13 +31,14 @@ THEOREMS = [
     (P, 'EAO.C19.coarse_beyond_grid_witness', 'the former witness of the crash is accepted: window 3 h beyond a 5 h grid, 2 h steps: steps [0,1],[2,3],[4], the empty pair skipped, all 5 h covered; window starting 4 h before the grid: the two leading pairs skipped'),
     (P, 'EAO.C19.coarse_on_restricted_witness', 'machine-checked witness of known finding F-19d'),
 ]
+THEOREMS = THEOREMS + PR.THEOREMS_C19_PRICES
 PARTIAL = ['coarse_partition covers [first cut, last cut), not the window: when the window is not a whole number of coarse steps AND ends inside the reference grid the implementation drops the fine steps after the last cut (known finding F-19b); a window that reaches beyond the reference grid loses nothing (coarse_partition_clipped)']
 COMPONENTS = ['grid (tick + supplied calendar points) vs Timegrid.__init__', 'restrict vs set_restricted_grid', 'coarsen vs the coarse branch', 'values_to_grid / implicit ends / prep_date_dict', 'prices pass-through']
 RULE = ('generated grids (5 zones, units h/d/min/s, tick frequencies + calendar d/MS/W, DST dates), restriction windows from a placement table, coarse multiples and non-multiples, coarse windows reaching beyond the reference grid (before the start, after the end, both; by whole coarse steps, by part of one, entirely outside), interval lists in all container forms incl. malformed; '
         'thorough: all windows on DST-night grids up to 48 steps; non-trivial = grid with more than one step built without error; distinct by case hash')
 ASSUMPTIONS = ['exact comparison when every dt is dyadic, 1e-9 relative otherwise']
 MODELLED = ['pandas localisation of naive dates and calendar arithmetic (date_range for calendar frequencies): inputs of the model, produced with the same pandas calls the code makes; hypothesis CalendarOK evaluated on what pandas returned',
-            'prices_to_grid interpolation (only the gridded pass-through is modelled)']
+            'prices_to_grid: the construction of the frame from the user\'s container (DataFrame.from_dict, pd.to_datetime of the keys) is done by pandas on the harness side; the model starts at the frame (index + columns) and covers union, interpolation in time, selection and the error classes']
 EXPLANATION = 'theorems about the model of Timegrid / values_to_grid; correspondence and the C19 statements evaluated on the real objects'
 
 
@@ -47,9 +49,21 @@ def scenarios(seed, tier):
     if tier == 'thorough':
         for cid, c in G.exhaustive_windows(48):
             yield cid, c
+    # prices_to_grid (comp/prices.py): interpolation in time, all input containers, restricted / coarse / empty target grids
+    import random
+    rnd = random.Random(seed * 104729 + 1919)
+    for i, c in enumerate(PR.corner_cases()):
+        yield 'prc%d' % i, {'_stream': 'prices', 'case': c}
+    for i in range(n // 4):
+        yield 'pr%d' % i, {'_stream': 'prices', 'case': PR.gen_case(random.Random(rnd.getrandbits(48)))}
 
 
 def run_case(case, drv):
+    if isinstance(case, dict) and case.get('_stream') == 'prices':
+        r = PR.run_case(case['case'], drv)
+        r.pop('exact', None)
+        r['features'] = ['stream:prices'] + list(r.get('features', []))
+        return r
     r = G.run_case(case, drv)
     r['disagreements'] = [d if isinstance(d, dict) else {'component': 'grid', 'detail': d} for d in r['disagreements']]
     return r
